@@ -45,4 +45,147 @@ def okValue (ds : List Char) (v : Str) : Bool :=
       else decide (scan ds v (none, []) = some (none, [])))
   && decide (split ['='] (argFormat ds v) = some [argFormat ds v])
 
+/-! ### round 3: line-level normal form (hypotheses of `C06Line.line_roundtrip`) -/
+
+/-- a rule does not react to the given fields -/
+def noMatch (fields : List Str) (r : Rule) : Bool :=
+  match r.pos with
+  | none => true
+  | some p =>
+    match fields[p]?, r.params[p]? with
+    | some f, some prm => lower f != lower prm.name
+    | _, _ => true
+
+/-- the keyword rules of one type never share (position, keyword) -/
+def kwDistinct : List Rule → Bool
+  | [] => true
+  | r :: rs =>
+    (match r.pos with
+     | none => true
+     | some p => rs.all (fun r' => !(r'.pos == some p && (r'.params[p]?.map (fun q => lower q.name)) == (r.params[p]?.map (fun q => lower q.name)))))
+    && kwDistinct rs
+
+/-- the segments of a parameter list: nodes, optional keyword, nodes, arguments -/
+structure Shape where
+  A : List Param
+  k : Option Param
+  B : List Param
+  C : List Param
+  deriving Repr
+
+def shapeOf (ps : List Param) : Shape :=
+  let A := ps.takeWhile (·.kind.isNode)
+  match ps.dropWhile (·.kind.isNode) with
+  | [] => ⟨A, none, [], []⟩
+  | q :: rest =>
+    if q.kind == .keyword then ⟨A, some q, rest.takeWhile (·.kind.isNode), rest.dropWhile (·.kind.isNode)⟩
+    else ⟨A, none, [], q :: rest⟩
+
+/-- a token that needs no quoting anywhere on a line: non-empty, no delimiter, bracket, quote, `;`
+    or white space -/
+def plainTok (ds : List Char) (t : Str) : Bool :=
+  !t.isEmpty && t.all (fun c => !ds.contains c && c != '{' && c != '}' && c != '"' && c != ';' && !isWs c)
+
+/-- shape-based well-formedness of a rule (what the line-level theorem uses): the parameters are
+    nodes, at most one keyword, nodes, then only name / value arguments; `pos` is the keyword's index;
+    the keyword is a plain token; the type is alphabetic and non-empty. -/
+def ruleWF2 (ds : List Char) (r : Rule) : Bool :=
+  let s := shapeOf r.params
+  s.C.all (·.kind.isArg)
+  && r.pos == s.k.map (fun _ => s.A.length)
+  && (match s.k with | some q => plainTok ds q.name | none => true)
+  && !r.type.isEmpty && r.type.all Char.isAlpha && r.type != ['X','X']
+
+/-- a rule without keyword is the first rule of its type (it is only reachable as the default) -/
+def defaultFirst (g : Grammar) : Bool :=
+  g.rules.all (fun r => r.pos.isSome || (rulesOf g r.type).head? == some r)
+
+/-- everything the line-level round trip needs of the grammar table -/
+def grammarWF (g : Grammar) : Bool :=
+  g.ok && g.rules.all (ruleWF2 g.delimiters) && defaultFirst g
+  && ((g.rules.map (·.type)).eraseDups.all (fun ty => kwDistinct (rulesOf g ty)))
+  && !g.delimiters.contains '{' && !g.delimiters.contains '}' && !g.delimiters.contains '"'
+  && !g.delimiters.contains '=' && !g.delimiters.contains '0' && !g.delimiters.contains ';'
+  && g.delimiters.contains ' ' && g.comments.all (fun c => !c.isAlpha)
+
+/-- a `None` in final position is only printable (by omission) if the parameter has no default -/
+def trailingNoneOK : List Param → List (Option Str) → Bool
+  | [p], [none] => p.default.isNone
+  | _ :: ps, _ :: v :: vs => trailingNoneOK ps (v :: vs)
+  | _, _ => true
+
+/-- the printer drops the sole printed argument because it equals the component name -/
+def fmtElided (ds : List Char) (relname : Str) (args : List (Option Str)) : Bool :=
+  (fmtArgs ds args).length == 1 && (fmtArgs ds args).head? == some relname
+
+/-- characters a value may consist of on a line: no `;` (the option separator is found before any
+    bracket is looked at) and no white space other than the delimiters (it would be stripped) -/
+def lineChars (ds : List Char) (v : Str) : Bool := v.all (fun c => c != ';' && (!isWs c || ds.contains c))
+
+/-- the keyword a rule writes -/
+def kwName (r : Rule) : Str := match (shapeOf r.params).k with | some q => q.name | none => []
+
+def nNodes (r : Rule) : Nat := (shapeOf r.params).A.length + (shapeOf r.params).B.length
+
+/-- rule selection finds `r` for these printed fields: no earlier rule of the type sees its keyword at
+    its position (for a rule without keyword: no rule at all does) -/
+def selOK (g : Grammar) (r : Rule) (fields : List Str) : Bool :=
+  match r.pos with
+  | some _ => ((rulesOf g r.type).takeWhile (fun r' => r' != r)).all (noMatch fields)
+  | none => (rulesOf g r.type).all (noMatch fields)
+
+/-- the name is printed as it is and read back as (type, id): a plain token without `.` that does not
+    start a directive, not anonymous, the id consists of id characters, the longest type that starts
+    `type ++ id` is `type` -/
+def nameOK (g : Grammar) (ty cid : Str) : Bool :=
+  !((cid.isEmpty && (ty == ['A'] || ty == ['W'] || ty == ['O'] || ty == ['P'])) || cid == ['?'])
+  && cid.all isIdChar
+  && matchType g (ty ++ cid) == some ty
+  && !(match ty ++ cid with
+       | c0 :: rest => (c0 == 'A' || c0 == 'O' || c0 == 'W' || c0 == 'P') && startsWith rest ['a','n','o','n']
+       | [] => false)
+  && plainTok g.delimiters (ty ++ cid) && (ty ++ cid).all (fun ch => ch != '.')
+  && !isDirective g (ty ++ cid) && (ty ++ cid).head? != some '0'
+
+/-- **normal form** of a component of rule `r` (the quantifier of the line-level round trip) -/
+def normalCpt (g : Grammar) (r : Rule) (c : Cpt) : Bool :=
+  let ds := g.delimiters
+  let C := (shapeOf r.params).C
+  let fields := (netTokens g c).drop 1
+  let nfa := fields.length - (nNodes r + (if (shapeOf r.params).k.isSome then 1 else 0))
+  c.classname == r.classname && c.ctype == r.type && c.name == r.type ++ c.cid
+  && nameOK g r.type c.cid
+  && c.nodes.length == nNodes r && c.nodes.all (fun n => plainTok ds n && n.head? != some '.')
+  && c.kw == kwName r && (r.pos.isNone || c.kwpos == r.pos)
+  && c.args.length == C.length
+  && c.args.all (fun a => match a with | some v => okValue ds v && lineChars ds v | none => true)
+  && trailingNoneOK C c.args
+  && (C.drop nfa).all (·.optional)
+  && (!fmtElided ds c.name c.args || (C.head?.bind (·.default)) == some ['n','a','m','e'])
+  && selOK g r fields
+
+/-! ### round 3: option tables in normal form (hypothesis of `C06Line.opts_format_parse`) -/
+
+/-- an option key: non-empty, no white space, none of `, = { }`, and not `def` (which accumulates a list) -/
+def optKeyOK (k : Str) : Bool :=
+  !k.isEmpty && k.all (fun c => !isWs c && c != ',' && c != '=' && c != '{' && c != '}') && k != ['d','e','f']
+
+/-- an option value without delimiters: none of `, { }`, no white space at either end, and not one of the
+    four spellings that are read as a Boolean -/
+def optStrOK (v : Str) : Bool :=
+  v.all (fun c => c != ',' && c != '{' && c != '}')
+  && (match v.head? with | some c => !isWs c | none => true)
+  && (match v.getLast? with | some c => !isWs c | none => true)
+  && v != ['t','r','u','e'] && v != ['T','r','u','e'] && v != ['f','a','l','s','e'] && v != ['F','a','l','s','e']
+
+def optValOK : OptVal → Bool
+  | .s v => optStrOK v
+  | .b _ => true
+  | .defs _ => false
+
+/-- option table in normal form: keys and values as above, keys pairwise distinct -/
+def optsNormal : Opts → Bool
+  | [] => true
+  | (k, v) :: rest => optKeyOK k && optValOK v && !(rest.any (fun p => p.1 == k)) && optsNormal rest
+
 end Lcapy.Parser
